@@ -25,7 +25,7 @@ def run_one(bid):
         results = {}
         for p in PROPS:
             try:
-                r = subprocess.run([os.path.join(VERIF, "check"), p, "--root", wt, "--no-write", "--no-controls"], capture_output=True, text=True, cwd=VERIF, timeout=900)
+                r = subprocess.run([os.path.join(VERIF, "check"), p, "--root", wt, "--no-write", "--no-controls"], capture_output=True, text=True, cwd=VERIF, timeout=900, env=dict(os.environ, SV_TIME_LIMIT=os.environ.get("SV_TIME_LIMIT", "600")))
             except subprocess.TimeoutExpired:
                 results[p] = {"exit": 2, "report": ["no verdict within 900 s (recorded as undecided)"]}
                 continue
